@@ -71,6 +71,11 @@ V1CFG = "SPECIFICATION TSpec\nPOSTCONDITION TraceAccepted\nCHECK_DEADLOCK FALSE\
 
 
 def trace_v1(v, acc, recs, what):
+    for r in recs:      # probes re-observe recorded findings on the real code (signature probe:<id>)
+        if r.get("ev") == "probe":
+            acc.extra.setdefault("probes", []).append(r)
+            if r.get("deviates"):
+                v.fail("probe:" + r["id"], r)
     lines = [r for r in recs if r.get("ev") in ("reset", "new", "add", "mm", "nm", "fpm")]
     if not lines:
         raise vlib.Inconclusive("no events to validate (%s)" % what)
